@@ -111,15 +111,16 @@ Fixpoint remove_overlap (fuel : nat) (a b : range) : option (list range * bool) 
   end.
 Definition remove_overlap_top (a b : range) := remove_overlap (S (length a)) a b.
 
-(* IntersectRanges as written: the result of rang.Intersect is only tested for length and dropped, so the
-   first range of non-zero length is returned unless a later one has a different (non-zero) length. *)
+(* IntersectRanges: the first range of non-zero length, intersected in turn with every later range of
+   non-zero length; nil (None) when there is no such range or an Intersect result has length 0 (which
+   MySQLRange.Intersect produces only for a length mismatch: an empty intersection is the range of empty columns). *)
 Fixpoint intersect_ranges_rest (rang : range) (rest : list range) : option range :=
   match rest with
-  | [] => Some rang
+  | [] => if Nat.eqb (length rang) 0 then None else Some rang
   | rc :: rest' =>
     if Nat.eqb (length rc) 0 then intersect_ranges_rest rang rest'
-    else if Nat.eqb (length (r_intersect rang rc)) 0 then None
-    else intersect_ranges_rest rang rest'
+    else let n := r_intersect rang rc in
+         if Nat.eqb (length n) 0 then None else intersect_ranges_rest n rest'
   end.
 Fixpoint intersect_ranges (rs : list range) : option range :=    (* None = nil *)
   match rs with
